@@ -236,6 +236,54 @@ def cycles_modulo(ctx, rule='C20-R4'):
     ctx.floor(rule, 'subscripts into style cycles', n, 4)
 
 
+def _ncomp_range(ctx, fx, rule):
+    """The values the package can store in groups['ncomp']: the constants written by the table builder / the layering
+    step, and 1 .. K for the component count returned by ncomp_from_gmm under its cap K."""
+    NCOMP = 'ampycloud.layer.ncomp_from_gmm'
+    p = ctx.project
+    vals = set()
+    tbl_roots = (('attr', ('p', 'self'), '_groups'),)
+    for q in ('ampycloud.data.CeiloChunk.find_layers', 'ampycloud.data.CeiloChunk.find_groups'):
+        p.func(q, rule)
+        for e in fx.deep_events(q):
+            if e.kind != 'store':
+                continue
+            t = e.target
+            col = t[3] if tag(t) == 'cell' else (t[2] if tag(t) == 'col' else None)
+            if col not in ('ncomp', C('ncomp')):
+                continue
+            for g, v in ([(T.TRUE, e.value)] if tag(e.value) != 'phi' else e.value[1]):
+                v = T.peel(v)
+                if T.is_const(v) and isinstance(v[1], int):
+                    vals.add(v[1])
+                    continue
+                calls = [x for x in T.walk(v) if tag(x) == 'call' and x[1] == ('g', NCOMP)]
+                if not calls:
+                    if tag(v) == 'mcall' and v[2] == 'astype':
+                        continue
+                    return None, f'an unbounded value ({T.show(v, maxlen=60)})'
+                cap = kwarg(calls[0], 'ncomp_max', 1)
+                K = None
+                if cap is None:
+                    from sa.rules.common import param_default
+                    import ast
+                    d = param_default(p.func(NCOMP, rule), 'ncomp_max')
+                    K = d.value if isinstance(d, ast.Constant) and isinstance(d.value, int) else None
+                elif T.is_const(cap) and isinstance(cap[1], int):
+                    K = cap[1]
+                else:
+                    for x in T.walk(cap):
+                        if tag(x) == 'call' and x[1] in (('g', 'numpy.min'), ('g', 'builtins.min')) and x[2]:
+                            items = x[2][0][1] if tag(x[2][0]) in ('list', 'tuple') else x[2]
+                            consts = [i[1] for i in items if T.is_const(i) and isinstance(i[1], int)]
+                            if consts:
+                                K = min(consts)
+                if K is None:
+                    return None, 'a component count without a constant cap'
+                vals |= set(range(1, K + 1))
+    return (vals or None), 'nothing'
+
+
 def consumer_tables(ctx, rule='C20-R5'):
     fx = effects(ctx)
     p = ctx.project
@@ -251,9 +299,11 @@ def consumer_tables(ctx, rule='C20-R5'):
                 if T.contains(x[2], lambda y: T.is_const(y) and y[1] == 'ncomp') or \
                         T.contains(x[2], lambda y: tag(y) == 'cell' and y[3] == 'ncomp'):
                     found += 1
-                    ctx.check({-1, 1, 2, 3} <= keys, rule, q, e.node, e.loc(),
+                    need, why = _ncomp_range(ctx, fx, rule)
+                    ctx.check(need is not None and need <= keys, rule, q, e.node, e.loc(),
                               f'symbol table keys {sorted(keys)} do not cover the component counts '
-                              '-1, 1, 2, 3 that the layering step can store', instance='symbs covers ncomp range')
+                              f'{sorted(need) if need is not None else why} that the grouping / layering steps can store '
+                              '(a KeyError while plotting)', instance='symbs covers ncomp range')
                     break
             if found:
                 break
